@@ -364,6 +364,61 @@ def run(ctx):
         r3.check("PyXFormError" in r.mro, "entities.unknown_column", "unknown entities column is rejected with PyXFormError", ep.loc())
     except Exception:
         raise
+    # ... with the arguments the row-sheet code actually passes: any further keyword of the call site in workbook_to_json
+    # is evaluated (as a dependency slice of that function) and handed to the validator, and a column that is not one
+    # of the documented entities columns must still be rejected - also the names of internal element fields
+    from ..rowloop import dependency_slice
+    w2j_e = ctx.func("pyxform.xls2json:workbook_to_json", "C19.R3")
+    ecall = next((c for c in walk_own(w2j_e.node) if isinstance(c, ast.Call) and call_name(c) == "get_entity_declaration"), None)
+    extra_kwargs = {}
+    if ecall is None:
+        r3.fail("workbook_to_json:get_entity_declaration", "the entities sheet is handed to the entity parser", w2j_e.loc())
+    else:
+        for k_ in ecall.keywords:
+            if k_.arg in (None, "entities_sheet"):
+                continue
+            # the assignments (and local imports) the argument expression depends on, transitively, in source order
+            need = {n_.id for n_ in ast.walk(k_.value) if isinstance(n_, ast.Name)}
+            picked = []
+            changed_ = True
+            while changed_:
+                changed_ = False
+                for st_k in walk_own(w2j_e.node):
+                    if st_k in picked or getattr(st_k, "lineno", 10 ** 9) >= ecall.lineno:
+                        continue
+                    defs_ = set()
+                    if isinstance(st_k, ast.Assign):
+                        defs_ = {t.id for t in st_k.targets if isinstance(t, ast.Name)}
+                    elif isinstance(st_k, ast.ImportFrom | ast.Import):
+                        defs_ = {(a_.asname or a_.name).split(".")[0] for a_ in st_k.names}
+                    if defs_ & need:
+                        picked.append(st_k)
+                        need |= {n_.id for n_ in ast.walk(st_k) if isinstance(n_, ast.Name) and isinstance(n_.ctx, ast.Load)}
+                        changed_ = True
+            picked.sort(key=lambda x_: x_.lineno)
+            try:
+                itk = ctx.interp("C19.R3")
+                itk.reset([])
+                envk = {}
+                for st_k in picked:
+                    if isinstance(st_k, ast.ImportFrom):
+                        for a_ in st_k.names:
+                            m_ = repo.modules.get(st_k.module)
+                            if m_ is not None:
+                                envk[a_.asname or a_.name] = itk.module_global(m_, a_.name)
+                    else:
+                        itk.exec_block([st_k], envk, w2j_e.module)
+                extra_kwargs[k_.arg] = itk.eval(k_.value, envk, w2j_e.module)
+            except Raised as e:
+                r3.fail(f"workbook_to_json:get_entity_declaration({k_.arg}=)", f"the extra argument evaluates (raises {e.exc_name})", w2j_e.loc(ecall))
+    for col in ("bogus_column", "name", "type", "parameters", "parent", "children", "what", "save_to", "repeat", "Name"):
+        it.reset([])
+        rowu = _row(False, False, False, True)
+        rowu[col] = "x"
+        outs_u = list(explore(it, lambda rowu=rowu: it.call_function(ep, [[dict(rowu)]], dict(extra_kwargs), None, ep.node)))
+        kinds_u = {("rejected" if (o[1][0] == "raise" and "PyXFormError" in o[1][1].mro) else ("accepted" if o[1][0] == "return" else f"raises {o[1][1].exc_name}")) for o in outs_u}
+        gotu = "rejected" if kinds_u == {"rejected"} else ", ".join(sorted(kinds_u))
+        r3.check(gotu == "rejected", f"entities.unknown_column[{col}]", "a column that is not a documented entities column is rejected (with the call site's own arguments)", ep.loc(), why_fail=gotu)
     # every documented column is accepted
     it.reset([])
     full = _row(True, False, True, True)
